@@ -22,6 +22,7 @@ func main() {
 	}
 	switch os.Args[1] {
 	case "C01":
+		alphabetMaxArrays = true
 		runC01(evid.New("C01"))
 	case "C02", "C03":
 		runC02(os.Args[1])
